@@ -733,7 +733,7 @@ func cmdHistory(seed int64, n int, out, replay, tier string) {
 		if tier == "thorough" {
 			maxRounds, maxF = 40, 3
 		}
-		for len(cs) < n {
+		for random := 0; random < n; random++ { // n random histories in addition to the directed ones
 			in := genHistory(r, maxRounds, maxF)
 			tag := "one-instance"
 			if len(in.Cfgs) > 1 {
